@@ -41,6 +41,10 @@ func (e *c05Env) context() *plush.Context {
 	c.Set("failL", func() ([]Person, error) { e.reached = true; return []Person{{Name: "zero"}}, ErrSentinel })
 	c.Set("mark", func(v interface{}) interface{} { e.reached = true; return v })
 	c.Set("ident", func(v interface{}) interface{} { return v })
+	c.Set("rnd", func(s string, help plush.HelperContext) (template.HTML, error) {
+		out, err := help.Render(s)
+		return template.HTML(out), err
+	})
 	c.Set("st", c05Failer{e})
 	c.Set("blk", func(help plush.HelperContext) (template.HTML, error) {
 		s, err := help.Block()
@@ -82,6 +86,8 @@ var c05Atoms = []c05Atom{
 	{"unknown-ident", `nope`, "unknown"},
 	{"unknown-func-call", `nope()`, "mustfail"},
 	{"unknown-arg", `ident(nope)`, "mustfail"},
+	{"partial-with-unknown-ident", `partial("pnope")`, "mustfail"},
+	{"render-with-unknown-ident", `rnd("<%= nope %>")`, "mustfail"},
 }
 
 type c05Expr struct {
@@ -182,7 +188,7 @@ func init() {
 			return s
 		},
 		Run:  c05Run,
-		Rule: "compositions wrapper^d ∘ statement-form ∘ expression-context^e ∘ failing-atom framed by literal text A…B: 10 block wrappers (top, if, else, for, fn body, helper block, contentFor→contentOf, contentOf default block, partial body, layout), 12 statement forms (emit, silent, let, assign, if/else-if condition, for iterable, return, partial/contentOf data), 35 expression contexts (each operand side of all 13 binary operators, !, array/hash element, index container/index, Go-helper/user-fn/method argument), 14 failing atoms (helper returning (T,err)/(err), method returning (T,err), failing helper/method as head of a .field/.method()/[i] chain, type error, index out of range, division by zero — each with a recording call so 'reached' is measured — unknown identifier, unknown function, unknown identifier as argument). Oracle when the failing site was reached: err != nil, output empty, errors.Is(err, sentinel) for helper failures; an unknown identifier is tolerated exactly as direct condition or direct operand of ! == != && || and fails everywhere else. Non-trivial: the failing site was reached (counted).",
+		Rule: "compositions wrapper^d ∘ statement-form ∘ expression-context^e ∘ failing-atom framed by literal text A…B: 10 block wrappers (top, if, else, for, fn body, helper block, contentFor→contentOf, contentOf default block, partial body, layout), 12 statement forms (emit, silent, let, assign, if/else-if condition, for iterable, return, partial/contentOf data), 35 expression contexts (each operand side of all 13 binary operators, !, array/hash element, index container/index, Go-helper/user-fn/method argument), 16 failing atoms (helper returning (T,err)/(err), method returning (T,err), failing helper/method as head of a .field/.method()/[i] chain, type error, index out of range, division by zero — each with a recording call so 'reached' is measured — unknown identifier, unknown function, unknown identifier as argument, unknown identifier inside a partial / a helper-rendered template). Oracle when the failing site was reached: err != nil, output empty, errors.Is(err, sentinel) for helper failures; an unknown identifier is tolerated exactly as direct condition or direct operand of ! == != && || and fails everywhere else. Non-trivial: the failing site was reached (counted).",
 		Bound: func(th bool) string {
 			if th {
 				return "d<=2 wrappers, e<=2 expression contexts"
@@ -260,7 +266,7 @@ func c05One(t *engine.T, wi, wj int, st c05Stmt, exprs []*c05Expr, at c05Atom) {
 		return c05Prelude + "A" + inner + "B"
 	}
 	t.Case(desc, true, func() (string, *engine.Fail) {
-		e := &c05Env{partials: map[string]string{"pw": "[<%= w %>]"}}
+		e := &c05Env{partials: map[string]string{"pw": "[<%= w %>]", "pnope": "<%= nope %>"}}
 		src := build(e)
 		ctx := e.context()
 		ctx.Set("ident2", func(a string, v interface{}) interface{} { return v })
